@@ -753,6 +753,11 @@ namespace ip {
 
 	void tcp::socket::packet_dropped(aux::packet p)
 	{
+		// the packet may be dropped by a queue further down the route long
+		// after it was sent. If this socket has been closed in the meantime
+		// there is no connection to retransmit it on
+		if (!m_channel) return;
+
 		int remote = m_channel->remote_idx(m_bound_to);
 		p.hops = m_channel->hops[remote];
 		m_outgoing_packets.push_back(std::move(p));
